@@ -52,6 +52,11 @@ CLAIMED["C07"] = dict(
    note="assumed: extern contracts of strconv/strings/bytes/utf8/regexp in contracts/extern.spec; token well-formedness of caller-supplied token slices (no nil token, identifiers/numbers with non-empty text) is a precondition of ParseNth/parsePageSelectors, established by the tokenizer but not proved through Compound values; one waived index obligation in matchInt (regexp capture-group count); machine-int-as-math; stack depth of recursion not modelled",
    ref="DESIGN.md §4 C07")
 
+CLAIMED["C05"] = dict(
+   text="Decided by proof for the parts of the selector engine that are under contract: specificity of every selector kind (tag (0,0,1), class/attribute/pseudo-class (0,1,0), id (1,0,0), never-match 0; a complex selector adds both sides; :is/:not/:has take the lexicographic maximum of their arguments (upper bound and attained, any number of arguments); a compound selector sums its parts plus (0,0,1) for a pseudo-element, exact for up to three simple selectors), the attribute operators ^= $= *= ~= with an empty value match nothing (defect found and fixed) and ~= with a value containing white space matches nothing, |= is 'equal or followed by -', the an+b test of :nth-*() is sound and complete for every a != 0 incl. negative steps (exists k >= 0 with a*k + b = index), asciiSet.index finds the first member, the matchers' sibling walks are memory safe. Tree-relative matching (combinators over the DOM, sibling counting, :empty, :has), :nth index computation from the sibling list, serialisation round trip and case-insensitive matching are NOT under contract.",
+   note="Sel.Specificity assumed a pure function of the (immutable) selector value with non-negative components (re-proved for every implementation in the package); asciiSet.contains uninterpreted (bit operations); strings.HasPrefix/HasSuffix/Contains/EqualFold/TrimSpace assumed (extern); matching against html.Node trees is not modelled; machine-int-as-math",
+   ref="DESIGN.md §4 C05")
+
 NOT_YET = {}
 
 NA = {
